@@ -1870,10 +1870,12 @@ func (e *Entry) DefaultValues() []string {
 	}
 
 	if typ := e.Type; typ != nil && typ.HasDefault {
-		switch leaf := e.Node.(type) {
+		switch e.Node.(type) {
 		case *Leaf:
+			// (Mandatory of the entry, not of the leaf statement: a deviation
+			// may have changed it.)
 			switch {
-			case e.IsLeaf() && (leaf.Mandatory == nil || leaf.Mandatory.Name == "false"), e.IsLeafList() && e.ListAttr.MinElements == 0:
+			case e.IsLeaf() && e.Mandatory != TSTrue, e.IsLeafList() && e.ListAttr.MinElements == 0:
 				return []string{typ.Default}
 			}
 		}
